@@ -81,6 +81,15 @@ def frame(pattern, shape, scale=1.0):
         a = (np.arange(r * c, dtype=float).reshape(shape) * 12.5 + 0.5) * k
     elif pattern == "checker":
         a = ((np.indices(shape).sum(axis=0) + s) % 2) * 250.0 * k + 0.75
+    elif pattern.startswith("faintrow_") or pattern.startswith("faintcol_"):
+        # one faint packet (a few hundred electrons) per line, all other pixels empty: next to the readout end, in the
+        # middle, at the far end of the transfer axis
+        a = np.zeros(shape)
+        where = pattern.split("_")[1]
+        if pattern.startswith("faintrow_"):
+            a[{"far": r - 1, "near": 1 % r, "mid": r // 2}[where], :] = 300.0 * k
+        else:
+            a[:, {"far": c - 1, "near": 1 % c, "mid": c // 2}[where]] = 300.0 * k
     elif pattern in ("sparse_rows", "sparse_cols"):
         # one bright pixel per line (row / column), a third of the way in, all other pixels of the line empty
         a = np.zeros(shape)
@@ -187,6 +196,18 @@ def enumerate_cases(tier, seed):
                             cases.append(dict(fam="cdm", beta=0.3, tr=2.0e-3 / ratio, nt=nt, sigma=1.0e-15, vg=1.0e-10,
                                               t=2.0e-3, direction=direction, species=species, pattern=pat,
                                               shape=shape, fwc=1.0e5, inj=False, repeats=2))
+    # cdm, faint packets in a heavily damaged device: several trap species whose capture fractions add up to more than
+    # one (each species must capture from what the others left)
+    for direction in ("parallel", "serial"):
+        for shape in ([40, 2], [2, 40], [6, 6]):
+            for species in (2, 3, 5):
+                for nt in (1.0e10, 3.0e11, 1.0e12):
+                    for tr in (1.0e-3, 2.0e-2):                 # release as fast as / much slower than the transfer
+                        for pat in ("faintrow_far", "faintrow_near", "faintrow_mid", "faintcol_far", "faintcol_near",
+                                    "faintcol_mid"):
+                            cases.append(dict(fam="cdm", beta=0.3, tr=tr, nt=nt, sigma=1.0e-15, vg=1.6e-10, t=1.0e-3,
+                                              direction=direction, species=species, pattern=pat, shape=shape,
+                                              fwc=1.0e4, inj=False, repeats=2, eq=True))
     # persistence (simple and with maps)
     hist = _histories(4 if thorough else 3)
     for p in _persist_params(thorough):
@@ -404,8 +425,8 @@ def run_cdm(case, res):
     det.pixel.array = inp.copy()
     ns = case["species"]
     kw = dict(direction=case["direction"], beta=case["beta"],
-              trap_release_times=[case["tr"] * 10.0 ** i for i in range(ns)],
-              trap_densities=[case["nt"] / (i + 1) for i in range(ns)],
+              trap_release_times=[case["tr"] * ((i + 1.0) if case.get("eq") else 10.0 ** i) for i in range(ns)],
+              trap_densities=[case["nt"] if case.get("eq") else case["nt"] / (i + 1) for i in range(ns)],
               sigma=[case["sigma"]] * ns,
               full_well_capacity=case["fwc"], max_electron_volume=case["vg"], transfer_period=case["t"],
               charge_injection=case["inj"])
